@@ -160,7 +160,7 @@ TABLE: list[tuple[str, str, bool, str, list[F]]] = [
         "        FAULTS.hit('post_init_pre')\n"
         "        ASTNode.__post_init__(self)\n"
         "        FAULTS.hit('post_init_post')\n",
-        [F("a", "str", "prop", "str")],
+        [F("a", "str", "prop", "str"), F("memo", "str", "prop", "str", 'field(default="", compare=False)', compare=False)],
     ),
 ]
 
